@@ -610,6 +610,9 @@ func main() {
 		}
 	}
 
+	for k, v := range hotNS {
+		res.Count("hot_reload_ms:"+k, v/1e6)
+	}
 	for _, f := range c.deferred {
 		f()
 	}
